@@ -187,10 +187,13 @@ class NetworkXGraphStorageDisjoint:
             return new_id
 
     storage_instance = None
+    storage_instance_lock = Lock()
 
     def __init__(self, logger=None):
-        if not NetworkXGraphStorageDisjoint.storage_instance:
-            NetworkXGraphStorageDisjoint.storage_instance = NetworkXGraphStorageDisjoint.__NetworkXGraphStorage(logger)
+        with NetworkXGraphStorageDisjoint.storage_instance_lock:
+            if not NetworkXGraphStorageDisjoint.storage_instance:
+                NetworkXGraphStorageDisjoint.storage_instance = \
+                    NetworkXGraphStorageDisjoint.__NetworkXGraphStorage(logger)
 
     def __getattr__(self, name):
         return getattr(self.storage_instance, name)
